@@ -2419,7 +2419,7 @@ impl Formatter {
   pub fn argument(&mut self, node: &(Option<Identifier>, Expression)) -> String {
     let (name, expr) = node;
     let n = match name {
-      Some(ident) => ident.to_string(),
+      Some(ident) => if self.html { ident.to_string() } else { format!("{}: ", ident.to_string()) },
       None => "".to_string(),
     };
     let e = self.expression(expr);
